@@ -1094,6 +1094,22 @@ class Interp:
             self.feat.add("utils")
             return "utils_add_patch_to_array"
         dup = lib.cJSON_Duplicate(r1.ptr, 1)
+        if (d >> 1) % 6 == 5:
+            # a patch value nested deeper than cJSON_Duplicate copies: the merge is refused part-way; everything must still be
+            # released exactly once, through the installed hooks
+            patch = lib.cJSON_CreateObject()
+            inner = lib.cJSON_CreateObject()
+            lib.cJSON_AddItemToObject(inner, b"x", lib.shim_make_chain(lib.circular_limit + 3, (d >> 4) % 8, 1, 0))
+            kids = lib.children(dup)
+            key0 = ctypes.string_at(lib.shim_key(kids[0])) if kids and (lib.shim_type(dup) & 0xFF) == 64 and lib.shim_key(kids[0]) else b"k"
+            lib.cJSON_AddItemToObject(patch, b"first", lib.cJSON_CreateTrue())
+            lib.cJSON_AddItemToObject(patch, key0, inner)
+            res = (lib.cJSONUtils_MergePatchCaseSensitive if cs else lib.cJSONUtils_MergePatch)(dup, patch)
+            if res:
+                lib.cJSON_Delete(res)
+            lib.cJSON_Delete(patch)
+            self.feat.add("utils")
+            return "utils_merge_apply(value too deep to copy)"
         res = (lib.cJSONUtils_MergePatchCaseSensitive if cs else lib.cJSONUtils_MergePatch)(dup, r2.ptr)
         if res:
             lib.cJSON_Delete(res)
